@@ -37,6 +37,21 @@ G2 = [[0, 1, 0], [0, 0, 1], [0, 0, 0]]
 G3 = [[0, 1], [0, 0]]
 
 
+def cycle(n):
+    A = [[0] * n for _ in range(n)]
+    for i in range(n):
+        a, b = sorted((i, (i + 1) % n))
+        A[a][b] = 1
+    return A
+
+
+def star(n):
+    A = [[0] * n for _ in range(n)]
+    for i in range(1, n):
+        A[0][i] = 1
+    return A
+
+
 def form(D, f):
     if f == "list":
         return [list(p) for p in D]
@@ -155,6 +170,16 @@ def thunks():
         np.random.seed(3)
         return persim.gromov_hausdorff(P["G2"], P["G1"], mapping_sample_size_order=P["order"])
 
+    def mgh_sensitive(P):
+        out = []
+        for sd in (0, 1, 2):
+            np.random.seed(sd)
+            out.append(persim.gromov_hausdorff(P["CY6"], P["ST5"]))
+            np.random.seed(sd)
+            out.append(persim.gromov_hausdorff(P["CY6"], P["CY8"]))
+        return out
+
+    reg("gromov_hausdorff_draw_sensitive", mgh_sensitive, ["CY6", "ST5", "CY8"], forms=("list", "int"))
     reg("gromov_hausdorff_pair", mgh_pair, ["G1", "G2"], forms=("list", "int"))
     reg("gromov_hausdorff_collection", mgh_coll, ["G1", "G2", "G3"], forms=("list", "int"))
     reg("gromov_hausdorff_order", mgh_order, ["G1", "G2", "order"], forms=("list", "int"))
@@ -337,6 +362,7 @@ def make_pool(f):
         "A": form(D1, dform), "B": form(D2, dform), "C": form(D3, dform),
         "I": form(DI, dform if dform in ("list", "f32") else "f64"),
         "G1": form(G1, gf), "G2": form(G2, gf), "G3": form(G3, gf),
+        "CY6": form(cycle(6), gf), "CY8": form(cycle(8), gf), "ST5": form(star(5), gf),
         "order": np.array([1.0, 1.0]), "coeffs": [2.0, -1.0], "labels": ["first", "second"],
         "plot_only": [1], "xy_range": [-1.0, 7.0, -1.0, 7.0],
         "M": np.array([[0.0, 0.0, 1.0], [1.0, 1.0, 2.0], [2.0, -1.0, 0.5]]),
@@ -391,7 +417,17 @@ def cases(tier):
                 yield {"kind": "B4-row", "f": f, "g": g}
 
 
+_CALLS = [0]
+
+
 def call(ctx, T, name, P):
+    import random
+
+    # every call runs under a different state of the stdlib generator (and of anything else seeded
+    # from it): only NumPy's generator is re-seeded by the mGH thunks, so a result that depends on
+    # another random source is not reproducible
+    _CALLS[0] += 1
+    random.seed(_CALLS[0])
     ctx.trans()
     with warnings.catch_warnings():
         warnings.simplefilter("ignore")
